@@ -45,7 +45,8 @@ ASSUMPTIONS = [
 DECIDED = ["a scope.h typestate", "b start loop + rollback on EH", "c stop loop", "d observer pairing", "e node level",
            "f owners stop children; GraphValue::reset", "g executor", "h error identity",
            'j switch_: the replaced branch is looked up before active_slot.reset() and stopped',
-           'k rollback of rebuild_structure resets created combiners on every path', 'l recorded clean-up failures are rethrown']
+           'k rollback of rebuild_structure resets created combiners on every path', 'l recorded clean-up failures are rethrown',
+           'm a failed child cycle is not resumed (= C01.d2)', 'n stop callbacks of keyed owners report child stop failures (known finding F-C14-3)']
 NOT_DECIDED = ["user stop callbacks", "throwing observers (best-effort by design)"]
 
 HDR = r"graph_header\(.*\)"
